@@ -51,6 +51,8 @@ type Solver struct {
 	timeoutMs int
 	curTO     int
 	FeasTimeoutMs int // shorter limit for branch-feasibility queries (unknown = keep the branch)
+	Mirror        *Solver // optional second solver: receives the same assertion stack; obligations are decided by both
+	MirrorStats   struct{ Checked, Agree, Disagree, Unknown int }
 }
 
 // setTimeout switches the per-query time limit (z3: dynamic option; cvc5: fixed at start).
@@ -117,6 +119,10 @@ func NewSolver(kind string, timeoutMs int, ctx *TermCtx, log io.Writer) (*Solver
 }
 
 func (s *Solver) send(line string) {
+	if s.Mirror != nil && !strings.HasPrefix(line, "(check-sat") && !strings.HasPrefix(line, "(echo") && !strings.HasPrefix(line, "(get-value") && !strings.HasPrefix(line, "(set-option :timeout") {
+		s.Mirror.flushFrom(s)
+		s.Mirror.send(line)
+	}
 	if s.Dead {
 		return
 	}
@@ -133,6 +139,18 @@ func (s *Solver) flush() {
 	for s.sentDefs < len(s.ctx.defs) {
 		s.send(s.ctx.defs[s.sentDefs])
 		s.sentDefs++
+	}
+}
+
+// flushFrom keeps the mirror's definitions in step with the primary's term context.
+func (s *Solver) flushFrom(primary *Solver) {
+	for s.sentDefs < len(s.ctx.defs) && s.sentDefs < primary.sentDefs {
+		d := s.ctx.defs[s.sentDefs]
+		s.sentDefs++
+		if s.log != nil {
+			fmt.Fprintln(s.log, d)
+		}
+		io.WriteString(s.in, d+"\n")
 	}
 }
 
@@ -265,6 +283,22 @@ func (s *Solver) CheckModel(extra []*Term, eval []*Term) (Result, []string) {
 	s.send("(check-sat)")
 	lines := s.readUntilMarker()
 	r, msg := classify(lines)
+	if s.Mirror != nil && !s.Mirror.Dead && (r == Sat || r == Unsat) {
+		// the second solver decides the same obligation on the same assertion stack
+		s.Mirror.flushFrom(s)
+		s.Mirror.send("(check-sat)")
+		mr, _ := classify(s.Mirror.readUntilMarker())
+		s.MirrorStats.Checked++
+		switch {
+		case mr == r:
+			s.MirrorStats.Agree++
+		case mr == Sat || mr == Unsat:
+			s.MirrorStats.Disagree++
+			r, msg = SolverError, fmt.Sprintf("solver disagreement: %s says %s, %s says %s", s.Name, r, s.Mirror.Name, mr)
+		default:
+			s.MirrorStats.Unknown++
+		}
+	}
 	var vals []string
 	if r == Sat && len(eval) > 0 {
 		vals = make([]string, len(eval))
@@ -317,6 +351,9 @@ func (s *Solver) CheckModel(extra []*Term, eval []*Term) (Result, []string) {
 }
 
 func (s *Solver) Close() {
+	if s.Mirror != nil {
+		s.Mirror.Close()
+	}
 	if s.cmd != nil {
 		s.in.Close()
 		s.cmd.Process.Kill()
